@@ -14,7 +14,8 @@ def table : List (String × Fn) := [
   ("LoopCtl", LoopCtl), ("RangeIdx", RangeIdx), ("SwitchTag", SwitchTag), ("SwitchBare", SwitchBare),
   ("SliceBounds", SliceBounds), ("Nested", Nested), ("Named", Named), ("PtrParam", PtrParam),
   ("Swap", Swap), ("DivMod", DivMod), ("StrOps", StrOps), ("IfInit", IfInit), ("Iota", Iota),
-  ("Bits", Bits), ("Down", Down), ("Appends", Appends), ("RangeVal", RangeVal), ("Store", Store)]
+  ("Bits", Bits), ("Down", Down), ("Appends", Appends), ("RangeVal", RangeVal), ("Store", Store),
+  ("Recur", Recur 64)]
 
 def render : Glb.Go.M (Bytes × Int × Bool) → String
   | .ok (s, n, b) => s!"ok {toHex s} {n} {b}"
